@@ -225,7 +225,11 @@ func Main() {
 	replayFile := flag.String("replay", "", "replay file to execute")
 	runlog := flag.Bool("runlog", false, "emit per-run log hashes")
 	curFile := flag.String("cur", "", "file that names the run in flight")
+	oneshot := flag.Bool("oneshot", false, "C14: execute one library call described on stdin in this fresh process")
 	flag.Parse()
+	if *oneshot {
+		os.Exit(oneshotMain())
+	}
 	runtime.GOMAXPROCS(1)
 	if s := os.Getenv("VERIF_NODE_GOMAXPROCS"); s != "" {
 		var v int
